@@ -10,6 +10,13 @@ pattern index, offsets, depth-cut counter.
 Oracle (the property itself, on the implementation's answers): emitted length <= reservation,
 0 <= so <= eo <= len(line) or -1/-1, character boundaries for valid UTF-8 line and pattern, groups
 beyond the limit reported as -1, no sanitizer report, every call within the CPU limit.
+Sequences ("rejected or compiled" must be a property of the pattern string alone; regex.c keeps the file-scope
+flag re_bad between calls -- threaded explicitly in coq/ReStateDefs.v, theorems C11_parser_flag_threaded,
+C11_regcomp_ignores_stale_flag, C11_regcomp_seq_pure): sessions of rset_make / bare regcomp / rset_find calls
+inside ONE probe process (plain and sanitized), built from the must-reject corpus (every rejection class), its valid
+neighbours, limit patterns, short metacharacter strings and malformed fragments in random contexts; every answer is
+compared with the same call in a fresh process and with the threaded model.  The same through the sanitized
+`vi -s -e` (:s, :g, /pat/ with rejected patterns followed by valid ones).
 """
 import itertools, json, os, glob
 import vlib
@@ -23,6 +30,11 @@ TRUSTED = ['clang ASan/UBSan to report reads and writes outside heap blocks (pat
 ALPHA = [b'a', b'b', b'.', b'*', b'+', b'?', b'(', b')', b'|', b'[', b']', b'^', b'$', b'\\', b'<', b'>', b'{', b'1', b',', b'}']
 LINES = [b'', b'a', b'ab\n', b'aab b1\n', 'béa1,{a}\n'.encode(), b'ba(a)[b]^$\\<>|*+?.11\n', b'\n', b'a' * 40 + b'\n']
 MAXRES = 200000
+# malformed constructs must be REJECTED (fix 66f245a / 3139e7f), the neighbouring valid forms accepted
+MUST_REJECT = [[b'(a)(b{3,1})', b'c'], [b'ab{3,1}'], [b'a{3,1}|b'], [b'x(|)'], [b'(|)'], [b'a)'], [b'(a'], [b'a{2x'], [b'a{1('], [b'a{'], [b'a{1'],
+               [b'a{1,'], [b'a{1,2'], [b'a{129}'], [b'a{2,1}'], [b'a)(b'], [b'c', b'a)(b'], [b'[a', b'b]'], [b'[a'], [b'a\\'], [b'a\\', b'b)'], [b'x', b'(y']]
+MUST_ACCEPT = [[b'a{2}'], [b'a{,}'], [b'a{}'], [b'a{1,2}b'], [b'(|a)'], [b'(a|)'], [b'()'], [b'a||b'], [b'|a'], [b'a|'], [b'*a'], [b'a\\)'], [b'[)]', b'[(]'],
+               [b'(a)(b)', b'c'], [b'[]a]'], [b'a\\\\']]
 
 
 def cases_for(i, lines):
@@ -119,6 +131,130 @@ def oracle_case(pats, line, c, single):
     return None
 
 
+SEQ_VALID = [b'a+b', b'(a|b)*c', b'[a-c]+1', b'a{2}', b'a{1,2}b', b'(a)(b)', b'^a', b'b1$', b'\\<a', b'.b', b'(ab|a)(b?)', b'[^a]b', b'a{,}', b'(|a)b', b'a||b',
+             'é+'.encode(), b'[[:alpha:]]+', b'a\\)', b'[)]', b'(a{2}){2}']
+SEQ_LIM = [b'a{128}', b'a{127,128}', b'(a{128}){128}', b'((a{20}){20}){20}', b'(a)' * 40, b'(' * 33 + b'a' + b')' * 33, b'(a)' * 31 + b'(b)', b'a' * 600,
+           b'(a|' * 50 + b'b' + b')' * 50, b'a{0}', b'a{0,0}', b'(a{0}){128}', b'[a-', b'[[:foo:]]', b'[b-a]', b'a{,3}']
+
+
+def gen_sessions(ctx, model, env):
+    rng = ctx.rng.fork('C11-seq')
+    nsess = 500 if ctx.quick else 5000
+    valid_texts = [ps[0] for ps in MUST_ACCEPT] + SEQ_VALID
+
+    def one_pattern():
+        k = rng.below(12)
+        if k < 3:
+            return relib.gen_bad_pattern(rng, valid_texts)
+        if k < 5:
+            return rng.choice(SEQ_VALID)
+        if k == 5:
+            return rng.choice(SEQ_LIM)
+        if k < 8:
+            return b''.join(rng.choice(ALPHA) for _ in range(rng.choice([1, 2, 3, 4, 5, 6])))
+        if k == 8:
+            pool = ALPHA + ['é'.encode(), '中'.encode(), b'[:alpha:]', b'[:', b':]', b'{2,3}', b'{128}', b'{129}', b'{0}', b'{,2}', b'\xc3', b'\xf0', b'\x80']
+            return b''.join(rng.choice(pool) for _ in range(rng.choice([2, 4, 8, 14])))
+        if k == 9:
+            return bytes(rng.range(1, 255) for _ in range(rng.choice([1, 2, 5, 12])))
+        return rng.choice(rng.choice(MUST_REJECT + MUST_ACCEPT))
+
+    # candidate sets; those with a nullable loop (KF-EMPTY-LOOP: exponential time) are kept out by the classifier on the model's tree
+    cands = []
+    for _ in range(nsess * 7):
+        k = rng.below(10)
+        if k < 2:
+            ps = list(rng.choice(MUST_REJECT))
+        elif k < 3:
+            ps = list(rng.choice(MUST_ACCEPT))
+        else:
+            ps = [one_pattern() for _ in range(rng.choice([1, 1, 1, 2, 3]))]
+            if rng.below(12) == 0:
+                ps.insert(rng.below(len(ps) + 1), None)
+        ps = [p for p in ps if p is None or p != b'']
+        if any(p is not None for p in ps):
+            cands.append(ps)
+    ok = [True] * len(cands)
+    if model:
+        tl = ['T ' + ','.join(hx(x) for x in ps if x is not None) for ps in cands]
+        tans, _ = relib.run_all(model, tl, chunk=2000, timeout=300, env=env)
+        for j, a in enumerate(tans):
+            if a and a.startswith('('):
+                try:
+                    if relib.nullable_loop(relib.parse_sexp(a)):
+                        ok[j] = False
+                except Exception:
+                    ok[j] = False
+    cands = [c for c, o in zip(cands, ok) if o]
+    lines = [l for l in LINES] + [b'aab\n', b'foo aab bar\n', 'é中a\n'.encode(), b'a)b(\n', b'\xf0', b'ab\xc3']
+    sessions = []
+    ci = 0
+    while len(sessions) < nsess and ci < len(cands):
+        ops = []
+        nslot = 0
+        for _ in range(rng.choice([2, 3, 4, 6, 8])):
+            if ci >= len(cands):
+                break
+            ps = cands[ci]
+            ci += 1
+            if rng.below(6) == 0 and ps[0] is not None and not ps[0].endswith(b'\\'):
+                ops.append(('G', ps[0]))
+                continue
+            ops.append(('M', rng.below(2), ps))
+            nslot += 1
+            for _ in range(rng.choice([0, 1, 1, 2])):
+                sl = nslot - 1 if rng.below(4) else rng.below(nslot)
+                ops.append(('F', sl, rng.choice([1, 3, 8]), rng.choice([0, 2, 4, 6]), rng.choice(lines)))
+        if ops:
+            sessions.append(ops)
+    return sessions
+
+
+def gen_ex_scripts(ctx):
+    rng = ctx.rng.fork('C11-ex')
+    n = 120 if ctx.quick else 1200
+    valid_texts = [ps[0] for ps in MUST_ACCEPT if len(ps) == 1] + SEQ_VALID
+    file_lines = [b'ab\n', b'aab b1\n', 'béa1,{a}\n'.encode(), b'ba(a)[b]^$\\<>|*+?.11\n', b'foo aab bar\n', b'a' * 40 + b'\n', b'\n', b'a{2,1}b)\n']
+    out = []
+    while len(out) < n:
+        lines = [rng.choice(file_lines) for _ in range(rng.choice([3, 4, 6]))]
+        cmds = []
+        for _ in range(rng.choice([1, 2, 3])):
+            for _ in range(rng.choice([1, 1, 2])):
+                bp = relib.gen_bad_pattern(rng, valid_texts) if rng.below(3) else rng.choice([ps[0] for ps in MUST_REJECT if len(ps) == 1])
+                cmds.append(rng.choice([('s', 1 + rng.below(len(lines)), bp), ('g', bp), ('a', 1 + rng.below(len(lines) - 1), bp)]))
+            p = rng.choice(valid_texts)
+            k = rng.below(4)
+            cmds.append(('s', 1 + rng.below(len(lines)), p) if k < 2 else (('g', p) if k == 2 else ('a', 1 + rng.below(len(lines) - 1), p)))
+        cmds = [c for c in cmds if relib.ex_cmd_bytes(c) is not None]
+        if cmds:
+            out.append({'ic': rng.below(2), 'lines': lines, 'cmds': cmds})
+    return out
+
+
+def run_sequences(ctx, res, probe, probe_asan, model, env, sessions=None, ex_scripts=None):
+    """sequences of compilations and matches in one process / one editor session (state between calls: re_bad)"""
+    if sessions is None:
+        sessions = gen_sessions(ctx, model, env)
+    relib.check_sessions(res, [('plain probe', probe), ('sanitized probe', probe_asan)], model, sessions, env=env,
+                         must_reject=MUST_REJECT, must_accept=MUST_ACCEPT)
+    res.extra['sessions'] = len(sessions)
+    res.count('sessions (sequences of calls in one process)', len(sessions))
+    vi = vlib.build_vi(asan=True)
+    if ex_scripts is None:
+        scripts = gen_ex_scripts(ctx)
+    else:
+        scripts = []
+        for r in ex_scripts:
+            out = vlib.run_ex(vi, vlib.unhx(r['ex_script']), files={'f': vlib.unhx(r['file'])}, args=['f'], readback=['f'], timeout=60)
+            res.evaluations += 1
+            if out.crashed():
+                res.violation({'what': 'the editor crashed or hung on a replayed ex script (rc=%s)' % out.rc, 'input': [r], 'observed': out.err[-1200:].decode('utf-8', 'replace')})
+            res.sample({'replayed_ex_script': r.get('script_text'), 'buffer': (out.files.get('f') or b'').decode('utf-8', 'replace')})
+    if scripts:
+        relib.check_ex_sequences(res, vi, probe, model, scripts, env=env)
+
+
 def run(ctx):
     res = ctx.res
     probe = vlib.build_probe('re', includes=['regex'])
@@ -126,10 +262,14 @@ def run(ctx):
     model = ctx.model('re')
     res.rule = ('one evaluation = one pattern set compiled and matched against its family of lines by the plain probe, the sanitized probe and the model; '
                 'non-trivial = the set compiles (program emitted); distinct = distinct pattern set')
+    sessions, ex_scripts = None, None
     if ctx.replay:
         rp = json.load(open(ctx.replay))
+        rin = rp.get('input', [])
         reqs = [('replay', r['flg'], r['nsub'], [vlib.unhx(p) for p in r['pats']], [(c[0], vlib.unhx(c[1])) for c in r['cases']])
-                for r in rp.get('input', [])]
+                for r in rin if 'pats' in r and 'cases' in r]
+        sessions = [relib.q_parse_line(r['session']) for r in rin if 'session' in r]
+        ex_scripts = [r for r in rin if 'ex_script' in r]
     else:
         reqs = corpus_requests() + gen_requests(ctx, res)
     lines = [req(f, n, p, c) for (_, f, n, p, c) in reqs]
@@ -226,6 +366,7 @@ def run(ctx):
     res.extra['model_vs_probe_differences'] = ndis
     for j in range(0, len(idx), max(1, len(idx) // 5)):
         res.sample({'request': inp(idx[j]), 'answer': (pans[j] or '')[:200]})
+    run_sequences(ctx, res, probe, probe_asan, model, env, sessions, ex_scripts)
     # ---- canonical inputs of the known findings of this property
     if not ctx.replay:
         kf = req(0, 2, [b'(a*)*b'], [(0, b'aaaa')])
@@ -234,10 +375,6 @@ def run(ctx):
             res.violation({'what': '(a*)*b on aaaa: exponential time (nullable loop body)', 'input': [{'pats': [hx(b'(a*)*b')], 'line': hx(b'aaaa')}]}, kf='KF-EMPTY-LOOP')
         # malformed constructs must be REJECTED (fix 66f245a / 3139e7f), the neighbouring valid forms accepted -- judged on the
         # implementation's answer alone
-        MUST_REJECT = [[b'(a)(b{3,1})', b'c'], [b'ab{3,1}'], [b'a{3,1}|b'], [b'x(|)'], [b'(|)'], [b'a)'], [b'(a'], [b'a{2x'], [b'a{1('], [b'a{'], [b'a{1'],
-                       [b'a{1,'], [b'a{1,2'], [b'a{129}'], [b'a{2,1}'], [b'a)(b'], [b'c', b'a)(b'], [b'[a', b'b]'], [b'[a'], [b'a\\'], [b'a\\', b'b)'], [b'x', b'(y']]
-        MUST_ACCEPT = [[b'a{2}'], [b'a{,}'], [b'a{}'], [b'a{1,2}b'], [b'(|a)'], [b'(a|)'], [b'()'], [b'a||b'], [b'|a'], [b'a|'], [b'*a'], [b'a\\)'], [b'[)]', b'[(]'],
-                       [b'(a)(b)', b'c'], [b'[]a]'], [b'a\\\\']]
         ma = [req(0, 2, ps, [(0, b'a\n')]) for ps in MUST_REJECT + MUST_ACCEPT]
         outs_ma, _ = relib.run_all(probe, ma, chunk=100, timeout=120, env=env)
         for k, (ps, a) in enumerate(zip(MUST_REJECT + MUST_ACCEPT, outs_ma)):
